@@ -1267,6 +1267,15 @@ fn main() {
     println!("tryborrow\t{:?} {}", tb, counter);
     let fb = futures::executor::block_on(join_async! { futures::future::ready(&data) |> |d: &Vec<i64>| d.len(), futures::future::ready(Rc::new(3i64)) |> |r| *r });
     println!("asyncborrow\t{:?}", fb);
+    // user closures inside a `>>>` section borrow from the caller's stack like any other operand: a counter that is
+    // captured by reference, and a move-only value that is only borrowed and still usable afterwards
+    let mut calls = 0i64;
+    let wb = join! { Some(Some(2i64)) => >>> |> |v| { calls += 1; v + 1 } <<< };
+    println!("wrapborrow\t{:?} {}", wb, calls);
+    let label = String::from("ab");
+    let mut seen = 0usize;
+    let wm = try_join! { Some(Some(1usize)) => >>> |> |v| { seen += 1; v + label.len() } <<< |> |v| v + 1, Some(2usize) };
+    println!("wrapmoveonly\t{:?} {} {}", wm, seen, label);
 }
 '''
 COST_EXPECTED = {
@@ -1277,6 +1286,8 @@ COST_EXPECTED = {
     "borrow": "[2, 3, 4] 5 3 5",
     "tryborrow": "Some((1, 4)) 1",
     "asyncborrow": "(3, 3)",
+    "wrapborrow": "Some(3) 1",
+    "wrapmoveonly": "Some((4, 2)) 1 ab",
 }
 
 
